@@ -160,6 +160,11 @@ MaskCompOK(r) == /\ r.exc = 0
                  /\ r.out = r.want_from_elements
                  /\ r.wrote = <<SelIdx(r.mask)[2]>>
 
+\* a consumer of a plain buffer and a strided array: refused, or served with the array's own elements (and a writer leaves
+\* the other components alone)
+SimpleBufOK(r) == /\ (r.exc = 1 \/ r.got = r.want)
+                  /\ ("others_same" \in DOMAIN r => r.others_same = 1)
+
 \* an index beyond the range of the C index type is out of range: raises, nothing changes
 HugeIdxOK(r) == r.exc = 1 /\ r.unchanged = 1
 
